@@ -25,6 +25,7 @@
 (*   fail (harness gate between a failed GetSession and CloseSession)      *)
 (*   cu   user.closesession.unlocked    t2   panel.terminate.queued        *)
 (*   t3   panel.terminate.closed        m2   panel.commit.lockedQ (holds Q)*)
+(*                                      (ml: inside the loop over the queue)*)
 (*   m3   panel.commit.collected                                           *)
 (*   u3   panel.update.lockedA on HEAD (holds Q and A);                    *)
 (*   u2   panel.update.lockedA before c8f2a81 (holds A only)               *)
@@ -102,6 +103,8 @@ VARIABLES
   prem,     \* `remaining` computed by CloseSession under S
   trec,     \* the record TerminateActiveUser was called with
   tpend,    \* result of valve.Nullify() in updateUsageQueueForOne, not yet in the queue
+  ploop,    \* commitUpdate: UIDs whose queue entry the loop has already passed
+  pwait,    \* commitUpdate: the record whose sessionsM the loop is waiting for (user.NumSession), 0 = none
   pin, pstat, \* commitUpdate: UIDs / usage of the statuses snapshot
   presp,    \* commitUpdate: UIDs of the TERMINATE responses still to act on
   pres,     \* outcome of a Conn
@@ -127,7 +130,7 @@ VARIABLES
   badStart, \* ghost: a session was created for a user without credit / expired / deleted
   ntraffic, nadmin
 
-ProcV  == <<pc, op, prec, prem, trec, tpend, pin, pstat, presp, pres>>
+ProcV  == <<pc, op, prec, prem, trec, tpend, ploop, pwait, pin, pstat, presp, pres>>
 LockV  == <<aw, qh, sh>>
 RecV   == <<active, nrec, ruid, rsess, rvalve, rterm>>
 ObjV   == <<nobj, ouid, orec, osid, okey, olive>>
@@ -169,6 +172,7 @@ Init ==
   /\ pc = [p \in Procs |-> FirstPc(op[p].k)]
   /\ prec = [p \in Procs |-> IF op[p].k = "serve" THEN op[p].u ELSE 0] /\ prem = [p \in Procs |-> 0] /\ trec = [p \in Procs |-> 0]
   /\ tpend = [p \in Procs |-> Z]
+  /\ ploop = [p \in Procs |-> {}] /\ pwait = [p \in Procs |-> 0]
   /\ pin = [p \in Procs |-> {}] /\ pstat = [p \in Procs |-> [u \in Users |-> Z]]
   /\ presp = [p \in Procs |-> <<>>] /\ pres = [p \in Procs |-> NoRes]
   /\ aw = 0 /\ qh = 0 /\ sh = [r \in Recs |-> 0]
@@ -199,8 +203,10 @@ Init ==
 
 -----------------------------------------------------------------------------
 (* Ready(p): the lock(s) the next action of p needs are free.              *)
-NeedS(p) == \* records whose S the snapshot loop of commitUpdate read-locks (user.NumSession)
-  {active[u] : u \in {v \in qin : active[v] # 0}}
+\* The loop of commitUpdate over the queue (Go map order): per entry A.RLock (lookup), user.NumSession() = S.RLock of
+\* the record found, A.RLock again (isActive).  All reads; what matters is where it can block.  An entry whose
+\* record's S is held makes the loop wait for THAT record (pwait), whatever happens to activeUsers meanwhile.
+LoopLeft(p) == qin \ ploop[p]
 
 Ready(p) ==
   CASE pc[p] = "gu"   -> aw = 0
@@ -217,7 +223,7 @@ Ready(p) ==
     [] pc[p] = "u2"   -> IF AQ THEN qh = 0 ELSE aw = 0
     [] pc[p] = "u3"   -> TRUE
     [] pc[p] = "m1"   -> qh = 0
-    [] pc[p] = "m2"   -> (qin = {} \/ aw = 0) /\ \A r \in NeedS(p) : sh[r] = 0   \* an empty queue: the loop locks nothing
+    [] pc[p] \in {"m2", "ml"} -> IF pwait[p] # 0 THEN sh[pwait[p]] = 0 ELSE (LoopLeft(p) = {} \/ aw = 0)
     [] pc[p] = "m3"   -> TRUE
     [] pc[p] = "mr"   -> aw = 0
     [] OTHER          -> FALSE
@@ -229,7 +235,7 @@ WaitsFor(p) ==
     [] pc[p] \in {"t1q", "m1"}            -> {"Q"}
     [] pc[p] = "u1"                       -> IF AQ THEN {"A"} ELSE {"Q"}
     [] pc[p] = "u2"                       -> IF AQ THEN {"Q"} ELSE {"A"}
-    [] pc[p] = "m2"                       -> (IF aw # 0 /\ qin # {} THEN {"A"} ELSE {}) \cup (IF \E r \in NeedS(p) : sh[r] # 0 THEN {"S"} ELSE {})
+    [] pc[p] \in {"m2", "ml"}             -> IF pwait[p] # 0 THEN {"S"} ELSE {"A"}
     [] OTHER                              -> {}
 
 Goto(p, l) == pc' = [pc EXCEPT ![p] = l]
@@ -254,7 +260,7 @@ ConnGetUser(p) ==
               /\ UNCHANGED pres
          ELSE /\ pres' = [pres EXCEPT ![p] = [t |-> "unauth", o |-> 0]] /\ Goto(p, "done")
               /\ UNCHANGED <<active, nrec, ruid, prec>>
-  /\ UNCHANGED <<op, prem, trec, tpend, pin, pstat, presp, LockV, rsess, rvalve, rterm, ObjV, QueueV, DbV, GhostV>>
+  /\ UNCHANGED <<op, prem, trec, tpend, ploop, pwait, pin, pstat, presp, LockV, rsess, rvalve, rterm, ObjV, QueueV, DbV, GhostV>>
 
 \* ActiveUser.GetSession: lock S, look the session up
 ConnLookup(p) ==
@@ -266,7 +272,7 @@ ConnLookup(p) ==
        ELSE IF rsess[r][s] # 0
          THEN /\ pres' = [pres EXCEPT ![p] = [t |-> "hit", o |-> rsess[r][s]]] /\ Goto(p, "done") /\ UNCHANGED sh
          ELSE /\ sh' = [sh EXCEPT ![r] = p] /\ Goto(p, "miss") /\ UNCHANGED pres
-  /\ UNCHANGED <<op, prec, prem, trec, tpend, pin, pstat, presp, aw, qh, RecV, ObjV, QueueV, DbV, GhostV>>
+  /\ UNCHANGED <<op, prec, prem, trec, tpend, ploop, pwait, pin, pstat, presp, aw, qh, RecV, ObjV, QueueV, DbV, GhostV>>
 
 \* ... AuthoriseNewSession(NumExisting = len(sessions)), MakeSession with this connection's key, unlock
 ConnCreate(p) ==
@@ -285,7 +291,7 @@ ConnCreate(p) ==
             /\ Goto(p, IF op[p].k = "connr" THEN "srv" ELSE "done")
        ELSE /\ pres' = [pres EXCEPT ![p] = [t |-> "refused", o |-> 0]] /\ Goto(p, "fail")
             /\ UNCHANGED <<ObjV, rsess, owhy, badStart>>
-  /\ UNCHANGED <<op, prec, prem, trec, tpend, pin, pstat, presp, aw, qh, active, nrec, ruid, rvalve, rterm, QueueV, DbV,
+  /\ UNCHANGED <<op, prec, prem, trec, tpend, ploop, pwait, pin, pstat, presp, aw, qh, active, nrec, ruid, rvalve, rterm, QueueV, DbV,
                  carried, charged, dropped, topups, cut, everTerm, rwhy, ntraffic, nadmin>>
 
 -----------------------------------------------------------------------------
@@ -308,7 +314,7 @@ CloseCS(p, r, s) ==
 CloseStep(p) ==
   /\ pc[p] \in {"srv", "fail"} /\ Ready(p)
   /\ CloseCS(p, prec[p], op[p].s)
-  /\ UNCHANGED <<op, prec, trec, tpend, pin, pstat, presp, pres, LockV, active, nrec, ruid, rterm,
+  /\ UNCHANGED <<op, prec, trec, tpend, ploop, pwait, pin, pstat, presp, pres, LockV, active, nrec, ruid, rterm,
                  nobj, ouid, orec, osid, okey, QueueV, DbV,
                  charged, dropped, topups, cut, everTerm, owhy, rwhy, badStart, ntraffic, nadmin>>
 
@@ -327,7 +333,7 @@ CloseDecide(p) ==
   /\ IF prem[p] = 0
        THEN Nullify(p, r)
        ELSE Goto(p, "done") /\ UNCHANGED <<tpend, rvalve, trec, everTerm>>
-  /\ UNCHANGED <<op, prec, prem, pin, pstat, presp, pres, LockV, active, nrec, ruid, rsess, rterm, ObjV, QueueV, DbV,
+  /\ UNCHANGED <<op, prec, prem, ploop, pwait, pin, pstat, presp, pres, LockV, active, nrec, ruid, rsess, rterm, ObjV, QueueV, DbV,
                  carried, charged, dropped, topups, cut, owhy, rwhy, badStart, ntraffic, nadmin>>
 
 -----------------------------------------------------------------------------
@@ -336,7 +342,7 @@ CloseDecide(p) ==
 TermNullify(p) ==
   /\ pc[p] = "t1n"
   /\ Nullify(p, trec[p])
-  /\ UNCHANGED <<op, prec, prem, pin, pstat, presp, pres, LockV, active, nrec, ruid, rsess, rterm, ObjV, QueueV, DbV,
+  /\ UNCHANGED <<op, prec, prem, ploop, pwait, pin, pstat, presp, pres, LockV, active, nrec, ruid, rsess, rterm, ObjV, QueueV, DbV,
                  carried, charged, dropped, topups, cut, owhy, rwhy, badStart, ntraffic, nadmin>>
 
 TermQueue(p) ==
@@ -346,7 +352,7 @@ TermQueue(p) ==
   /\ qin' = qin \cup {u}
   /\ tpend' = [tpend EXCEPT ![p] = Z]
   /\ Goto(p, "t2")
-  /\ UNCHANGED <<op, prec, prem, trec, pin, pstat, presp, pres, LockV, RecV, ObjV, DbV, GhostV>>
+  /\ UNCHANGED <<op, prec, prem, trec, ploop, pwait, pin, pstat, presp, pres, LockV, RecV, ObjV, DbV, GhostV>>
 
 TermCloseAll(p) ==
   LET r == trec[p]
@@ -360,7 +366,7 @@ TermCloseAll(p) ==
   /\ carried' = [carried EXCEPT ![u].nt = @ + n]
   /\ rterm' = [rterm EXCEPT ![r] = TRUE]
   /\ Goto(p, "t3")
-  /\ UNCHANGED <<op, prec, prem, trec, tpend, pin, pstat, presp, pres, LockV, active, nrec, ruid,
+  /\ UNCHANGED <<op, prec, prem, trec, tpend, ploop, pwait, pin, pstat, presp, pres, LockV, active, nrec, ruid,
                  nobj, ouid, orec, osid, okey, QueueV, DbV,
                  charged, dropped, topups, cut, everTerm, owhy, rwhy, badStart, ntraffic, nadmin>>
 
@@ -374,7 +380,7 @@ TermDelete(p) ==
             /\ rwhy' = IF cur # 0 /\ cur # r THEN [rwhy EXCEPT ![cur] = "stale-terminate"] ELSE rwhy
        ELSE UNCHANGED <<active, rwhy>>
   /\ IF op[p].k = "commit" /\ presp[p] # <<>> THEN Goto(p, "mr") ELSE Goto(p, "done")
-  /\ UNCHANGED <<op, prec, prem, trec, tpend, pin, pstat, presp, pres, LockV, nrec, ruid, rsess, rvalve, rterm, ObjV, QueueV, DbV,
+  /\ UNCHANGED <<op, prec, prem, trec, tpend, ploop, pwait, pin, pstat, presp, pres, LockV, nrec, ruid, rsess, rvalve, rterm, ObjV, QueueV, DbV,
                  carried, charged, dropped, topups, cut, everTerm, owhy, badStart, ntraffic, nadmin>>
 
 -----------------------------------------------------------------------------
@@ -384,13 +390,13 @@ UpdLock1(p) ==
   /\ pc[p] = "u1" /\ Ready(p)
   /\ IF AQ THEN aw' = p /\ UNCHANGED qh ELSE qh' = p /\ UNCHANGED aw
   /\ Goto(p, "u2")
-  /\ UNCHANGED <<op, prec, prem, trec, tpend, pin, pstat, presp, pres, sh, RecV, ObjV, QueueV, DbV, GhostV>>
+  /\ UNCHANGED <<op, prec, prem, trec, tpend, ploop, pwait, pin, pstat, presp, pres, sh, RecV, ObjV, QueueV, DbV, GhostV>>
 
 UpdLock2(p) ==
   /\ pc[p] = "u2" /\ Ready(p)
   /\ IF AQ THEN qh' = p /\ UNCHANGED aw ELSE aw' = p /\ UNCHANGED qh
   /\ Goto(p, "u3")
-  /\ UNCHANGED <<op, prec, prem, trec, tpend, pin, pstat, presp, pres, sh, RecV, ObjV, QueueV, DbV, GhostV>>
+  /\ UNCHANGED <<op, prec, prem, trec, tpend, ploop, pwait, pin, pstat, presp, pres, sh, RecV, ObjV, QueueV, DbV, GhostV>>
 
 UpdBody(p) ==
   LET au == {u \in Users : active[u] # 0} IN
@@ -400,25 +406,39 @@ UpdBody(p) ==
   /\ rvalve' = [r \in Recs |-> IF \E u \in au : active[u] = r THEN Z ELSE rvalve[r]]
   /\ aw' = 0 /\ qh' = 0
   /\ Goto(p, "done")
-  /\ UNCHANGED <<op, prec, prem, trec, tpend, pin, pstat, presp, pres, sh, active, nrec, ruid, rsess, rterm, ObjV, DbV, GhostV>>
+  /\ UNCHANGED <<op, prec, prem, trec, tpend, ploop, pwait, pin, pstat, presp, pres, sh, active, nrec, ruid, rsess, rterm, ObjV, DbV, GhostV>>
 
 -----------------------------------------------------------------------------
 (* commitUpdate                                                            *)
 ComLock(p) ==
   /\ pc[p] = "m1" /\ Ready(p)
   /\ qh' = p /\ Goto(p, "m2")
-  /\ UNCHANGED <<op, prec, prem, trec, tpend, pin, pstat, presp, pres, aw, sh, RecV, ObjV, QueueV, DbV, GhostV>>
+  /\ UNCHANGED <<op, prec, prem, trec, tpend, ploop, pwait, pin, pstat, presp, pres, aw, sh, RecV, ObjV, QueueV, DbV, GhostV>>
 
-\* the loop over the queue (A.RLock / S.RLock per entry, reads only), the reset, the unlock
+\* one entry of the loop: passed, or found with its record's sessionsM held (then the loop waits for that record)
+ComLoop(p) ==
+  /\ pc[p] \in {"m2", "ml"} /\ Ready(p)
+  /\ Goto(p, "ml")
+  /\ IF pwait[p] # 0
+       THEN pwait' = [pwait EXCEPT ![p] = 0] /\ UNCHANGED ploop
+       ELSE \E u \in LoopLeft(p) :
+              LET r == active[u] IN
+              IF r # 0 /\ sh[r] # 0
+                THEN pwait' = [pwait EXCEPT ![p] = r] /\ ploop' = [ploop EXCEPT ![p] = @ \cup {u}]
+                ELSE ploop' = [ploop EXCEPT ![p] = @ \cup {u}] /\ UNCHANGED pwait
+  /\ UNCHANGED <<op, prec, prem, trec, tpend, pin, pstat, presp, pres, LockV, RecV, ObjV, QueueV, DbV, GhostV>>
+
+\* after the loop: the statuses, the reset of the queue, the unlock
 ComSnapshot(p) ==
-  /\ pc[p] = "m2" /\ Ready(p)
+  /\ pc[p] \in {"m2", "ml"} /\ pwait[p] = 0 /\ LoopLeft(p) = {}
   /\ pin' = [pin EXCEPT ![p] = qin]
   /\ pstat' = [pstat EXCEPT ![p] = queue]
+  /\ ploop' = [ploop EXCEPT ![p] = {}]
   /\ IF "NoQueueReset" \in Dev THEN UNCHANGED QueueV
      ELSE queue' = [u \in Users |-> Z] /\ qin' = {}
   /\ qh' = 0
   /\ Goto(p, "m3")
-  /\ UNCHANGED <<op, prec, prem, trec, tpend, presp, pres, aw, sh, RecV, ObjV, DbV, GhostV>>
+  /\ UNCHANGED <<op, prec, prem, trec, tpend, pwait, presp, pres, aw, sh, RecV, ObjV, DbV, GhostV>>
 
 \* Manager.UploadStatus: one transaction over all statuses
 RECURSIVE RespSeq(_, _)
@@ -443,7 +463,7 @@ ComUpload(p) ==
   /\ pin' = [pin EXCEPT ![p] = {}]
   /\ pstat' = [pstat EXCEPT ![p] = [u \in Users |-> Z]]
   /\ IF tu = {} THEN Goto(p, "done") ELSE Goto(p, "mr")
-  /\ UNCHANGED <<op, prec, prem, trec, tpend, pres, LockV, RecV, ObjV, QueueV, dbx, dbe,
+  /\ UNCHANGED <<op, prec, prem, trec, tpend, ploop, pwait, pres, LockV, RecV, ObjV, QueueV, dbx, dbe,
                  carried, topups, everTerm, owhy, rwhy, badStart, ntraffic, nadmin>>
 
 \* one TERMINATE response: look the user up under A.RLock
@@ -456,7 +476,7 @@ ComResp(p) ==
   /\ IF r # 0
        THEN trec' = [trec EXCEPT ![p] = r] /\ Goto(p, "t1n")
        ELSE UNCHANGED trec /\ (IF rest = <<>> THEN Goto(p, "done") ELSE Goto(p, "mr"))
-  /\ UNCHANGED <<op, prec, prem, tpend, pin, pstat, pres, LockV, RecV, ObjV, QueueV, DbV, GhostV>>
+  /\ UNCHANGED <<op, prec, prem, tpend, ploop, pwait, pin, pstat, pres, LockV, RecV, ObjV, QueueV, DbV, GhostV>>
 
 -----------------------------------------------------------------------------
 Step(p) ==
@@ -464,7 +484,7 @@ Step(p) ==
   \/ CloseStep(p) \/ CloseDecide(p)
   \/ TermNullify(p) \/ TermQueue(p) \/ TermCloseAll(p) \/ TermDelete(p)
   \/ UpdLock1(p) \/ UpdLock2(p) \/ UpdBody(p)
-  \/ ComLock(p) \/ ComSnapshot(p) \/ ComUpload(p) \/ ComResp(p)
+  \/ ComLock(p) \/ ComLoop(p) \/ ComSnapshot(p) \/ ComUpload(p) \/ ComResp(p)
 
 -----------------------------------------------------------------------------
 (* Environment                                                             *)
@@ -509,10 +529,10 @@ TypeOK ==
   /\ nrec \in 0..MaxRec /\ nobj \in 0..MaxObj
   /\ \A u \in Users : active[u] \in 0..nrec
   /\ \A p \in Procs : pc[p] \in {"idle", "done", "gu", "gs", "miss", "fail", "srv", "cu", "t1n", "t1q", "t2", "t3",
-                                  "u1", "u2", "u3", "m1", "m2", "m3", "mr"}
+                                  "u1", "u2", "u3", "m1", "m2", "ml", "m3", "mr"}
   \* a lock is held by a process that is at a position where the code holds it
   /\ aw # 0 => pc[aw] \in {"u2", "u3"}
-  /\ qh # 0 => pc[qh] \in {"u2", "u3", "m2"}
+  /\ qh # 0 => pc[qh] \in {"u2", "u3", "m2", "ml"}
   /\ \A r \in Recs : sh[r] # 0 => pc[sh[r]] = "miss" /\ prec[sh[r]] = r
 
 \* ------------------------------------------------------------------ C15
